@@ -29,6 +29,9 @@ Compared per case, each disagreement attributed to the earliest phase that expla
   runtime  printed values and ending of configuration nn vs run_source_impl (Lang.run_impl None)
   spec     the same vs run_source (Spec.run_spec) whenever the reference run is comparable
   theorem  run_source comparable => run_source_impl equal (instance of impl_equals_spec_end_to_end)
+  cli      the REAL `naija <file>` binary (cmd.rs run_source, plan + frame arena): exit status 0 iff
+           the model accepts and its run ends normally, failure otherwise; stdout contains what
+           Lang.display says `shout` wrote; a rejected text shows the model's first diagnostic
 Inputs: langgen programs (size-capped: the extracted lexer is quadratic on byte lists),
 token-level mutants (rejections in every phase), re-layouts and redundant-parenthesis variants
 produced by `nsverif layout` from the real token spans, a fixed corpus of phase / literal /
@@ -66,7 +69,7 @@ KEY_PREFIX = "pipeline-"
 FUEL = 60000
 SKIP_MODEL = ("fuel", "unsupported")
 SKIP_IMPL = ("err:Stack_overflow", "timeout")
-PHASES = ("front", "lexer", "parser", "number", "static", "resolve", "runtime", "spec", "theorem")
+PHASES = ("front", "lexer", "parser", "number", "static", "resolve", "runtime", "spec", "theorem", "cli")
 
 TOKEN_RE = re.compile(
     r'\s+|#[^\n\r]*|"(?:\\.|[^"\\\n\r])*"?|\'(?:\\.|[^\'\\\n\r])*\'?|if\s+to\s+say\b|if\s+not\s+so\b|small\s+pass\b|'
@@ -174,6 +177,11 @@ def hx(text):
     return b.hex() if b else "-"
 
 
+def full_corpus():
+    """the fixed corpus plus every static-rule line on its own (deterministic coverage of each rule)"""
+    return CORPUS + [("static-line-%d" % i, ln + "\n") for i, ln in enumerate(STATIC_LINES)]
+
+
 def unhx(h):
     return "" if h == "-" else bytes.fromhex(h).decode("utf-8")
 
@@ -218,6 +226,34 @@ def mutate(rng, text):
         else:
             toks[i] = rng.choice(["comot", "next", "return 1", "return"])
     return "".join(toks)
+
+
+STATIC_LINES = ['shout(zz_undeclared)', 'zz_undeclared get 1', 'comot', 'next', 'return 1', 'shout(zz_fn(1))', 'make shout get 1',
+                'do typeof(a) start end', 'shout("s".nope())', 'shout("s".slice(1))', 'shout([1].join())', 'shout(1 add true)',
+                'shout(not 1)', 'if to say (1) start end', 'jasi ("s") start comot end', 'shout(typeof())', 'shout(to_string(1, 2))',
+                'do zz_d(a, a) start end', 'do zz_e() start end\ndo zz_e() start end', 'shout("a{zz_undeclared}")',
+                'make zz_a get [1]\nshout(zz_a["x"])', 'shout(null.len())', 'make zz_n get 1\nzz_n.push(2)',
+                # a method of another family on a receiver of every statically known type
+                'make zz_h get null\nshout(zz_h.to_uppercase())', 'make zz_b get true\nshout(zz_b.len())',
+                'make zz_k get 1\nshout(zz_k.len())', 'make zz_s get "s"\nshout(zz_s.sqrt())', 'make zz_r get [1]\nshout(zz_r.trim())',
+                'shout(true.abs())', 'shout((1).trim())', 'shout("s".push(1))', 'shout([1].to_uppercase())',
+                # operand typing of every operator family
+                'shout("a" minus 1)', 'shout(true times 2)', 'shout(null divide 1)', 'shout([1] mod 2)', 'shout(minus "s")',
+                'shout(1 and true)', 'shout("a" or false)', 'shout(1 na "a")', 'shout(true pass 1)', 'shout([1] small pass [2])',
+                'make zz_i get [1]\nshout(zz_i[true])', 'make zz_j get 1\nshout(zz_j[0])', 'make zz_j get 1\nzz_j[0] get 2']
+
+
+def inject_static(rng, text):
+    """one statement that breaks exactly one static rule, at top level: before or after the program, or
+    a call of one of the program's own functions with one argument too many"""
+    fns = re.findall(r"(?m)^do (\w+)\(([^)]*)\)", text)
+    if fns and rng.random() < 0.3:
+        f, ps = rng.choice(fns)
+        n = len([x for x in ps.split(",") if x.strip()])
+        line = "shout(%s(%s))" % (f, ", ".join(["1"] * (n + 1)))
+    else:
+        line = rng.choice(STATIC_LINES)
+    return (line + "\n" + text) if rng.random() < 0.4 else (text if text.endswith("\n") else text + "\n") + line + "\n"
 
 
 def docs_and_examples():
@@ -355,6 +391,8 @@ def parse_model(lines):
             _, tag, rest = l.split(" ", 2)
             ending, _, vals = rest.partition(" |")
             cur["runs"][tag] = (ending.strip(), vals.strip())
+        elif l.startswith("out "):
+            cur["out"] = l[4:].strip()
         elif l.startswith("end "):
             cur["complete"] = True
     return recs
@@ -363,8 +401,12 @@ def parse_model(lines):
 def run_model(env, name, cases, impl_recs, timeout, jobs=4, low_fuel=()):
     """cases: [(id, normalised source)].  Sharded over `jobs` processes (the extracted lexer is slow).
     Cases in `low_fuel` (front-end-only snippets: console / process built-ins, the stack-overflow
-    example) are evaluated with a small fuel: their runs are never compared."""
+    example) are evaluated with a small fuel: their runs are never compared.
+    A watchdog kills a shard whose output has not grown for `stall` seconds (the model works on byte
+    lists: a generated program that doubles a string in a nested loop can take minutes), records the
+    case it was working on as `model timeout` (inconclusive) and restarts the shard behind it."""
     import subprocess
+    stall = 45 if getattr(env, "tier", "quick") == "quick" else 300
     shards = [[] for _ in range(max(1, jobs))]
     # the fixed corpus goes through run_source / run_source_impl THEMSELVES (NSPIPE_DIRECT); for the
     # other cases the glue calls Pipeline.front once and applies spec_of_front / impl_of_front to it
@@ -375,17 +417,17 @@ def run_model(env, name, cases, impl_recs, timeout, jobs=4, low_fuel=()):
     order = sorted(range(len(rest)), key=lambda i: -len(rest[i][1]))
     for n, i in enumerate(order):
         shards[n % len(shards)].append(rest[i])
-    shards.append(direct)
-    procs = []
     eps = langrun.eps_hex()
-    for j, sh in enumerate(shards):
-        if not sh:
-            continue
-        penv = dict(os.environ)
-        if sh is direct:
-            penv["NSPIPE_DIRECT"] = "1"
-        inp = os.path.join(env.work, "%s.%d.min" % (name, j))
-        outp = os.path.join(env.work, "%s.%d.mout" % (name, j))
+    recs = {}
+    err = ""
+    timed_out = []
+    deadline = time.time() + timeout
+    counter = [0]
+
+    def start(sh, is_direct):
+        counter[0] += 1
+        inp = os.path.join(env.work, "%s.%d.min" % (name, counter[0]))
+        outp = os.path.join(env.work, "%s.%d.mout" % (name, counter[0]))
         with open(inp, "w") as f:
             for cid, src in sh:
                 f.write("case %s %s%s\n" % (cid, hx(src), " 300" if cid in low_fuel else ""))
@@ -394,21 +436,49 @@ def run_model(env, name, cases, impl_recs, timeout, jobs=4, low_fuel=()):
                     f.write(r["ast"] + "\n")
         if os.path.exists(outp):
             os.remove(outp)
-        procs.append((subprocess.Popen([common.NSMODEL, "pipeline", eps, str(FUEL), inp, outp],
-                                       stdin=subprocess.DEVNULL, stdout=subprocess.DEVNULL, stderr=subprocess.PIPE, env=penv), outp))
-    recs = {}
-    err = ""
-    deadline = time.time() + timeout
-    for p, outp in procs:
-        try:
-            _, e = p.communicate(timeout=max(1, deadline - time.time()))
-            if p.returncode != 0:
-                err += "nsmodel pipeline rc=%s %s\n" % (p.returncode, (e or b"").decode("utf-8", "replace")[-300:])
-        except subprocess.TimeoutExpired:
-            p.kill()
-            err += "nsmodel pipeline timeout\n"
-        if os.path.exists(outp):
-            recs.update(parse_model(open(outp, encoding="utf-8", errors="replace").read().splitlines()))
+        penv = dict(os.environ)
+        if is_direct:
+            penv["NSPIPE_DIRECT"] = "1"
+        p = subprocess.Popen([common.NSMODEL, "pipeline", eps, str(FUEL), inp, outp],
+                             stdin=subprocess.DEVNULL, stdout=subprocess.DEVNULL, stderr=subprocess.PIPE, env=penv)
+        return {"p": p, "cases": sh, "out": outp, "direct": is_direct, "size": -1, "changed": time.time()}
+
+    def collect(job):
+        if os.path.exists(job["out"]):
+            got = parse_model(open(job["out"], encoding="utf-8", errors="replace").read().splitlines())
+            recs.update({k: v for k, v in got.items() if v.get("complete")})
+
+    active = [start(sh, False) for sh in shards if sh]
+    if direct:
+        active.append(start(direct, True))
+    while active:
+        time.sleep(0.3)
+        now = time.time()
+        for job in list(active):
+            rc = job["p"].poll()
+            size = os.path.getsize(job["out"]) if os.path.exists(job["out"]) else 0
+            if size != job["size"]:
+                job["size"], job["changed"] = size, now
+            if rc is not None:
+                collect(job)
+                if rc != 0:
+                    e = job["p"].stderr.read() if job["p"].stderr else b""
+                    err += "nsmodel pipeline rc=%s %s\n" % (rc, (e or b"").decode("utf-8", "replace")[-300:])
+                active.remove(job)
+            elif now - job["changed"] > stall or now > deadline:
+                job["p"].kill()
+                job["p"].wait()
+                collect(job)
+                active.remove(job)
+                left = [c for c in job["cases"] if c[0] not in recs]
+                if left:
+                    timed_out.append(left[0][0])
+                    if now <= deadline and len(left) > 1 and len(timed_out) < 40:
+                        active.append(start(left[1:], job["direct"]))
+                    else:
+                        timed_out.extend(c[0] for c in left[1:])
+    for cid in timed_out:
+        recs[cid] = {"id": cid, "model_timeout": True, "complete": False}
     return recs, err
 
 
@@ -453,6 +523,8 @@ def numbers_only_differ(a, b):
 
 def compare_case(ir, mr, ran):
     """-> (status, phase, detail); status in agree | inconclusive | disagree"""
+    if mr is not None and mr.get("model_timeout"):
+        return "inconclusive", "front", {"what": "model evaluation exceeded the watchdog (byte-list strings / quadratic lexer)"}
     if mr is None or not mr.get("complete"):
         return "disagree", "front", {"what": "no complete model record"}
     if ir is None or ir.get("accepted") is None:
@@ -545,6 +617,76 @@ def evaluate(env, cases, io_ids=(), jobs=4, timeout=None):
     return out, irecs, mrecs, err
 
 
+# ---------------------------------------------------------------------------- the shipped binary
+
+def cli_stream(env, cases, mrecs, io_ids):
+    """The REAL `naija <file>` (src/bin/naija/cmd.rs run_source: plan + frame arena) on source files,
+    against the model's verdict: exit status 0 iff the text is accepted and the run ends normally;
+    what `shout` wrote (Lang.display of every printed value + LF) appears in stdout; a rejected text
+    exits with failure and shows its first reported diagnostic.  Ties the gate of the shipped binary
+    (which diagnostics stop the pipeline) to Pipeline.accepted, and Display to Lang.display."""
+    import subprocess
+    exe = common.naija_bin()
+
+    def stale():
+        if not os.path.exists(exe):
+            return True
+        t = os.path.getmtime(exe)
+        for root, _, files in os.walk(os.path.join(common.REPO, "src")):
+            for fn in files:
+                if os.path.getmtime(os.path.join(root, fn)) > t:
+                    return True
+        return os.path.getmtime(os.path.join(common.REPO, "Cargo.toml")) > t
+
+    ok, out = (True, "") if not stale() else common.build_naija()
+    if not ok or not os.path.exists(exe):
+        return [], {"cli_note": "naija binary not built: %s" % out[-300:]}
+    dis, n, skipped = [], 0, 0
+    d = os.path.join(env.work, "cli")
+    os.makedirs(d, exist_ok=True)
+    for cid, src in cases:
+        mr = mrecs.get(cid)
+        if cid in io_ids or mr is None or mr.get("front") != "ok" or not src.strip():
+            skipped += 1
+            continue
+        path = os.path.join(d, "%d.ns" % n)
+        with open(path, "w", encoding="utf-8", newline="") as f:
+            f.write(src)
+        try:
+            p = subprocess.run([exe, path], stdin=subprocess.DEVNULL, stdout=subprocess.PIPE, stderr=subprocess.PIPE, timeout=20)
+            rc, so = p.returncode, p.stdout
+        except subprocess.TimeoutExpired:
+            skipped += 1
+            continue
+        n += 1
+        what = None
+        if not mr["accepted"]:
+            first = (mr["ldiag"] or mr["sdiag"] or [None])[0]
+            msg = first[0] if first else (mr["viol"][0][1] if mr["viol"] else "")
+            if rc != 1:
+                what = "rejected by the model (%s) but `naija` exit status is %s" % (mr["phase"], rc)
+            elif msg and msg.encode("utf-8") not in so:
+                what = "first reported diagnostic %r not shown by `naija`" % msg
+        else:
+            e, _ = mr["runs"].get("i", ("missing", ""))
+            exp = bytes.fromhex(mr.get("out", "-").replace("-", "")) if mr.get("out") else b""
+            if e in SKIP_MODEL or e.startswith("panic") or rc not in (0, 1):
+                skipped += 1          # resource exhaustion / open early-capture finding / native crash: C06, C08
+                continue
+            if e == "ok" and rc != 0:
+                what = "accepted, model run ends normally, `naija` exit status %s" % rc
+            elif e.startswith("err:") and rc != 1:
+                what = "model run ends with %s, `naija` exit status %s" % (e, rc)
+            elif exp not in so:
+                what = "printed text differs (Lang.display vs stdout)"
+            elif e == "ok" and not so.endswith(exp):
+                what = "something was written after the program's own output although the run ended normally"
+        if what:
+            dis.append({"stream": "pipeline:cli", "key": KEY_PREFIX + "cli", "case": {"id": cid, "source": src[:4000]},
+                        "detail": {"what": what, "exit": rc, "stdout": so[:400].decode("utf-8", "replace"), "model_run": mr["runs"].get("i")}})
+    return dis, {"cli_cases": n, "cli_skipped": skipped}
+
+
 # ---------------------------------------------------------------------------- entry points
 
 def correspond(env, searching=False, model=True):
@@ -553,13 +695,13 @@ def correspond(env, searching=False, model=True):
     scale = 1 if quick else 12
     if searching:
         scale *= 2
-    cap = 4000 if quick else 8000
-    n_gen = 220 * scale
-    n_mut = 260 * scale
-    n_rel_bases = 45 * scale
+    cap = 3200 if quick else 8000
+    n_gen = 190 * scale
+    n_mut = 240 * scale
+    n_rel_bases = 36 * scale
     cases = []
     origin = {}
-    for cid, src in CORPUS:
+    for cid, src in full_corpus():
         cases.append(("c-" + cid, src))
     io_ids = set()
     for cid, src in docs_and_examples():
@@ -575,8 +717,7 @@ def correspond(env, searching=False, model=True):
         cases.append(("g%d" % i, src))
     for i in range(n_mut):
         base = rng.choice(gens) if rng.random() < 0.8 else rng.choice(CORPUS)[1]
-        # mutate a short window of the program: keeps the model fast and the damage local
-        cases.append(("m%d" % i, mutate(rng, base)))
+        cases.append(("m%d" % i, inject_static(rng, base) if rng.random() < 0.3 else mutate(rng, base)))
     bases = [("g%d" % i, norm(gens[i])) for i in rng.sample(range(len(gens)), min(n_rel_bases, len(gens)))]
     bases += [("c-" + cid, norm(src)) for cid, src in CORPUS if cid in ("ok-small", "small-pass", "closure", "interp-owned", "loops", "arrays", "num-methods")]
     bases = [(cid, src) for cid, src in bases if len(src) <= cap]
@@ -596,9 +737,13 @@ def correspond(env, searching=False, model=True):
     nontrivial = 0
     lazy_cut = 0
     rel_same = 0
+    model_timeouts = []
     for cid, src, st, ph, det in results:
         counts[st] += 1
         mr = mrecs.get(cid)
+        if mr and mr.get("model_timeout"):
+            model_timeouts.append(cid)
+            continue
         if mr and mr.get("phase") in phases_seen:
             phases_seen[mr["phase"]] += 1
         if mr and mr.get("info"):
@@ -637,12 +782,19 @@ def correspond(env, searching=False, model=True):
                                       "detail": {"what": "model observation of a re-layout differs from the base text", "base": base}})
     if err:
         disagreements.append({"stream": "pipeline:front", "key": KEY_PREFIX + "model-run", "case": {}, "detail": {"what": err[:600]}})
+    # the shipped binary on the fixed corpus, the examples / docs and a sample of the generated programs
+    cli_cases = [(cid, norm(src)) for cid, src in cases
+                 if usable(src) and (cid.startswith(("c-", "ex-", "doc-")) or (cid[0] in "gm" and "~" not in cid and int(cid[1:]) < 40 * scale))]
+    cli_dis, cli_extra = cli_stream(env, cli_cases, mrecs, io_ids)
+    by_phase["cli"] = len(cli_dis)
+    disagreements += cli_dis
     extra = {"pipeline_counts": counts, "pipeline_disagreements_by_phase": {k: v for k, v in by_phase.items() if v},
              "pipeline_rejecting_phase_histogram": phases_seen, "pipeline_endings": endings,
              "pipeline_lazy_lexing_cut_diagnostics": lazy_cut, "pipeline_relayouts": len(origin),
              "pipeline_relayouts_same_model_observation": rel_same, "pipeline_relayout_note": rel_note,
              "pipeline_io_snippets_front_end_only": len(io_ids), "pipeline_seconds": round(time.time() - t0, 1),
-             "pipeline_size_cap_bytes": cap}
+             "pipeline_size_cap_bytes": cap, "pipeline_model_timeouts": model_timeouts[:20]}
+    extra.update({"pipeline_" + k: v for k, v in cli_extra.items()})
     env.log("pipeline: %d cases, %s, by phase %s, rejecting phases %s, %.1fs" % (
         len(results), counts, extra["pipeline_disagreements_by_phase"], phases_seen, time.time() - t0))
     return {"evaluations": len(results), "distinct_nontrivial": nontrivial,
